@@ -102,11 +102,6 @@ abbrev SideData := List (List Bytes)
 
 def SideOK (spt : Nat) (d : SideData) : Prop := ∀ tr ∈ d, tr.length = spt ∧ ∀ s ∈ tr, IsSector s
 
-/-- how a side was laid down: per track, the gaps and the physical order of the records -/
-structure Recording where
-  lay : Layout
-  order : List Nat
-
 def RecordingOK (fm : Bool) (spt : Nat) (rc : Recording) : Prop :=
   (if fm then LegalFm rc.lay else LegalMfm rc.lay) ∧ rc.order.Perm (List.range spt)
 
@@ -137,7 +132,7 @@ theorem C05_hfe_v1 (fm : Bool) (spt : Nat) (ds : List SideData) (rss : List (Lis
       ∀ k (hk : k < ds.length), ∃ s, sides[k]? = some s ∧ s.side = k ∧
         s.geom = { cylinders := ntr, heads := 1, sectors := spt, encoding := some (if fm then Encoding.FM else Encoding.MFM) } ∧
         ∀ lba, hfeReadBlock s lba = dumpRead spt (ds.getD k []) lba :=
-  hfe_v1_image fm spt ds rss hsides hr ntr hn hspt hd hrs hsmall
+  hfe_v1_image fm spt ds rss hsides hr ntr hn hspt hd hrs hsmall fm_track_roundtrip mfm_track_roundtrip
 
 
 /-- **HFE v3 image = sector dump**: the same with every side stream stored as any
@@ -156,7 +151,7 @@ theorem C05_hfe_v3 (fm : Bool) (spt : Nat) (ds : List SideData) (rss : List (Lis
       ∀ k (hk : k < ds.length), ∃ s, sides[k]? = some s ∧ s.side = k ∧
         s.geom = { cylinders := ntr, heads := 1, sectors := spt, encoding := some (if fm then Encoding.FM else Encoding.MFM) } ∧
         ∀ lba, hfeReadBlock s lba = dumpRead spt (ds.getD k []) lba :=
-  hfe_v3_image fm spt ds rss hsides hr ntr hn hspt hd hrs items hitems
+  hfe_v3_image fm spt ds rss hsides hr ntr hn hspt hd hrs items hitems fm_track_roundtrip mfm_track_roundtrip
 
 /-- **HxC MFM image = sector dump.** -/
 theorem C05_hxc (spt : Nat) (ds : List SideData) (rss : List (List Recording))
@@ -171,6 +166,19 @@ theorem C05_hxc (spt : Nat) (ds : List SideData) (rss : List (List Recording))
       ∀ k (hk : k < ds.length), ∃ s, sides[k]? = some s ∧ s.side = k ∧
         s.geom = { cylinders := ntr, heads := 1, sectors := spt, encoding := some Encoding.MFM } ∧
         ∀ lba, hxcReadBlock s lba = dumpRead spt (ds.getD k []) lba :=
-  hxc_image spt ds rss hsides hr ntr hn hspt hd hrs hsmall
+  hxc_image spt ds rss hsides hr ntr hn hspt hd hrs hsmall mfm_track_roundtrip
+
+/-! ### the hypotheses are satisfiable -/
+
+/-- the standard IBM 3740 / System 34 gaps are legal -/
+example : LegalFm {} ∧ LegalMfm { gap2 := 22, sync := 12, gap3 := 54, fill := 0x4E } := by
+  unfold LegalFm LegalMfm; decide
+
+/-- a 2:1 interleaved ten-sector track is a legal recording -/
+example : RecordingOK true 10 { lay := {}, order := [0, 5, 1, 6, 2, 7, 3, 8, 4, 9] } := by
+  refine ⟨?_, ?_⟩
+  · show LegalFm {}
+    unfold LegalFm; decide
+  · decide
 
 end Beeb.Props.C05
